@@ -102,6 +102,11 @@ def run(ctx):
             if len(ps) != x['nmatch']:
                 ctx.violate(key + '|count', 'number of product sets differs from the number of matches of the reactant pattern', {'op': 'run_rule', 'text': t, 'smiles': [smi]},
                             x['nmatch'], len(ps))
+            pl = x.get('plain')
+            if pl is not None and (len(pl) != len(ps) or any(q_['natoms'] != x['natoms'] for q_ in pl)
+                                   or sorted(q_['nfrag'] for q_ in pl) != sorted(p_['nfrag'] for p_ in ps)):
+                ctx.violate(key + '|plain', 'on the plain molecule (no atom-map numbers) a product set loses atoms or fragments', {'op': 'run_rule', 'text': t, 'smiles': [smi]},
+                            {'natoms': x['natoms'], 'nfrag': sorted(p_['nfrag'] for p_ in ps)}, pl[:6])
             zs = sorted(a[0] for a in x['graph']['atoms'])
             for p in ps:
                 if None in p['atoms'] or sorted(a[0] for a in p['atoms']) != zs:
